@@ -211,6 +211,27 @@ func cpuNanos() int64 {
 	return ru.Utime.Nano() + ru.Stime.Nano()
 }
 
+// runDelayNanos is the time this process's threads have spent runnable but waiting for a CPU
+// (second field of /proc/self/task/*/schedstat). A blocked process does not accumulate any; a
+// process starved by an overloaded machine does.
+func runDelayNanos() int64 {
+	var sum int64
+	tasks, _ := filepath.Glob("/proc/self/task/*/schedstat")
+	for _, t := range tasks {
+		b, err := os.ReadFile(t)
+		if err != nil {
+			continue
+		}
+		f := strings.Fields(string(b))
+		if len(f) >= 2 {
+			if v, err := strconv.ParseInt(f[1], 10, 64); err == nil {
+				sum += v
+			}
+		}
+	}
+	return sum
+}
+
 // Hash returns the FNV-1a hash of s.
 func Hash(s string) uint64 {
 	h := fnv.New64a()
@@ -249,7 +270,7 @@ func (c *Ctx) Max(name string, n int64) {
 		c.res.Counters[name] = n
 	}
 }
-func (c *Ctx) Note(s string)              { c.res.Notes = append(c.res.Notes, s) }
+func (c *Ctx) Note(s string) { c.res.Notes = append(c.res.Notes, s) }
 func (c *Ctx) MachineErr(s string) {
 	if len(c.res.MachineErrs) < 20 {
 		c.res.MachineErrs = append(c.res.MachineErrs, s)
@@ -494,12 +515,19 @@ func workerMain(props map[string]*Prop, a []string) {
 		}
 	}
 	go func() {
+		lastCur, lastSt, delay0 := int64(-2), int64(0), int64(0)
 		for {
 			time.Sleep(500 * time.Millisecond)
 			cur, st := c.cur.Load(), c.curStart.Load()
 			burnt := time.Duration(cpuNanos() - c.curCPU.Load())
 			waited := time.Since(time.Unix(0, st))
-			if cur >= 0 && st > 0 && (burnt > hangAfter || (waited > 10*hangAfter && burnt < time.Second)) {
+			if cur != lastCur || st != lastSt {
+				lastCur, lastSt, delay0 = cur, st, runDelayNanos()
+			}
+			// blocked = a long wait with no CPU used AND none wanted: threads that are runnable but
+			// not scheduled (an overloaded machine) are starved, not hung
+			blocked := waited > 10*hangAfter && burnt < time.Second && (time.Duration(runDelayNanos()-delay0) < 5*time.Second || waited > 100*hangAfter)
+			if cur >= 0 && st > 0 && (burnt > hangAfter || blocked) {
 				buf := make([]byte, 1<<20)
 				s1 := PlencFrame(buf[:runtime.Stack(buf, true)])
 				time.Sleep(time.Second)
@@ -598,6 +626,15 @@ func runWorker(self string, p *Prop, tier string, w, n int, deadline time.Time, 
 		wr.res = nil
 		if only >= 0 {
 			os.Stderr.WriteString(tail)
+			os.Remove(cellPath)
+			return wr
+		}
+		// A tree on which very many cases crash or hang must not keep this check running for hours: a
+		// restart replays the worker's share from its beginning. Once the tier's budget is spent, or after
+		// eight deaths, the worker's share is reported as not completed (the deaths are violations anyway).
+		if time.Now().After(deadline) || len(wr.crashes) >= 8 {
+			wr.res = &result{Expired: true, Outcomes: map[string]int64{}, Dims: map[string]int64{}, Counters: map[string]int64{},
+				Notes: []string{fmt.Sprintf("worker %d gave up after %d crashed or hung cases", w, len(wr.crashes))}}
 			os.Remove(cellPath)
 			return wr
 		}
